@@ -601,6 +601,7 @@ func run(r *vk.Run) {
 	forcedJoinDuringSend(r)
 	leaverMidSeed(r)
 	joinAfterUnpublishedCommits(r)
+	pausedReader(r)
 	idx := 0
 	for _, isVal := range []bool{false, true} {
 		ops := colOps()
